@@ -51,7 +51,7 @@ def main():
             assert rc == 0, out
 
             def one(pid):
-                r, o = sh("./check %s --tier quick --no-evidence --repo %s" % (pid, copy), cwd=VERIF)
+                r, o = sh("timeout -k 5 1200 ./check %s --tier quick --no-evidence --repo %s" % (pid, copy), cwd=VERIF)
                 return pid, r, [l for l in o.splitlines() if l.startswith("  ") or l.startswith("ANALYSIS-ERROR")][:3]
             with ThreadPoolExecutor(max_workers=9) as ex:
                 res = list(ex.map(one, PIDS))
